@@ -279,9 +279,9 @@ Proof.
 Qed.
 
 (* ================= witnesses ================= *)
-Definition w_n0 := mkNode "n0" "x0" "pa" true true true 4000 8192 false.
-Definition w_n1 := mkNode "n1" "x1" "pb" true true true 2000 4096 false.
-Definition w_c0 := mkClaim "c0" "x0" "pa" 2000 4096 false.
+Definition w_n0 := mkNode "n0" "x0" "pa" true true true true 4000 8192 false.
+Definition w_n1 := mkNode "n1" "x1" "pb" true true true true 2000 4096 false.
+Definition w_c0 := mkClaim "c0" "x0" "pa" 2000 4096 false false.
 Definition w_p0 (node : string) := mkPod "default/p0" node false false (250, 128) (500, 128) 134217728 ["0.0.0.0/80/TCP"] ["drv1|default/pvc-a"].
 
 Ltac refute :=
@@ -330,7 +330,7 @@ Proof.
 Qed.
 
 Definition demo_ops : list op :=
-  [ SetNode (mkNode "n0" "" "pa" true false true 4000 8192 false);   (* managed, provider id not set yet: ignored *)
+  [ SetNode (mkNode "n0" "" "pa" true false false true 4000 8192 false);   (* managed, provider id not set yet: ignored *)
     DeliverNode "n0";
     SetNode w_n1; DeliverNode "n1";
     SetPod (w_p0 "n0"); DeliverPod "default/p0";                     (* node not tracked yet: NotFound, requeue *)
